@@ -1,7 +1,7 @@
 (* RunC04.v — correspondence runner for C04. *)
 Require Import Ommx.Num Ommx.Poly Ommx.Msg Ommx.Eval Ommx.Tree Ommx.Arith Ommx.Inst Ommx.Relax
         Ommx.RunC02 Ommx.RunC03 Ommx.RunC05 Ommx.RunC14 Ommx.Transform Ommx.RunTransform Ommx.Subst
-        Ommx.Samples Ommx.RunSamples.
+        Ommx.Samples Ommx.RunSamples Ommx.PEval Ommx.PEvalInst.
 From Coq Require Import String.
 Open Scope string_scope.
 
@@ -112,6 +112,34 @@ Definition run_C04 (case : tree) : tree :=
           end
       | _, _, _, _, _ => badcase "subst_penalty_eval: input"
       end
+  | L [A "subst_pe_samples"; L [i; rs; fx; sm]; L [res; ev]] =>
+      match d_instance i, d_list d_repl rs, d_state fx with
+      | Some I', Some Rs, Some fx' =>
+          match substitute_all I' Rs with
+          | None => if is_err res || is_panic res then agree ["subst-pe-samples"; "err"]
+                    else disagree "Instance::substitute must fail" (A "err")
+          | Some J =>
+              match inst_pe tiny_eps J fx' with
+              | None => if is_err res || is_panic res then agree ["subst-pe-samples"; "err"]
+                        else disagree "partial_evaluate must fail" (A "err")
+              | Some (K, _) =>
+                  match judge_instance (Some K) res "substitute + partial_evaluate" with
+                  | L (A "agree" :: _) =>
+                      (* the sampled evaluation is judged by the C06 runner on the instance the SDK holds *)
+                      match ok_payload res with
+                      | Some kt =>
+                          match run_C06 (L [A "eval_samples"; L [kt; sm]; ev]) with
+                          | L (A "agree" :: _) => agree ["subst-pe-samples"; "ok"]
+                          | v => v
+                          end
+                      | None => badresult "subst_pe_samples: shape"
+                      end
+                  | v => v
+                  end
+              end
+          end
+      | _, _, _ => badcase "subst_pe_samples: input"
+      end
   | L [A "deps_orders"; L [i; s; _]; res] =>
       match d_instance i, d_state s with
       | Some I', Some s' =>
@@ -135,6 +163,8 @@ Definition run_C04 (case : tree) : tree :=
       end
   | L [A "inst_substitute"; _; res] =>
       if is_hang res then disagree "substitute / evaluate must return" (A "err") else badresult "inst_substitute: shape"
+  | L [A "subst_pe_samples"; _; res] =>
+      if is_hang res then disagree "substitute / partial_evaluate / evaluate_samples must return" (A "err") else badresult "subst_pe_samples: shape"
   | L [A "subst_penalty_eval"; _; res] =>
       if is_hang res then disagree "substitute / penalty / evaluate must return" (A "err") else badresult "subst_penalty_eval: shape"
   | L [A "deps_orders"; _; res] =>
